@@ -172,8 +172,8 @@ var vC13Rejected = []string{
 	"select key where key = 'a' group by key",
 	"select * where key = 'a' limit",
 	"delete where key = 'a' limit x",
-	"put ('a', 'b'), ",
-	"remove 'a', ",
+	"put ('a', 'b') ('c', 'd')",
+	"remove 'a' 'b'",
 	"select count(1), key where key ^= 'a'",
 }
 
